@@ -91,6 +91,16 @@ Theorem C08_by_instruction_total :
 Proof. exact by_instruction_total. Qed.
 Print Assumptions C08_by_instruction_total.
 
+(* Totality side: whatever recreate_stepper builds from ANY saved tree is a stepper of this outline
+   (every stepper points to the instruction at the position its parent says, every function stepper
+   holds its instruction's function).  It does not validate positions: a tree that save did not
+   produce can yield an out-of-range position, which the next step() turns into an assertion /
+   IndexError (EXCEPTED), not into the execution of foreign code. *)
+Theorem C08_recreate_sound :
+  forall nm o n s, recreate nm false o n = inr s -> obj o (pos_of s) = Some s.
+Proof. exact recreate_sound. Qed.
+Print Assumptions C08_recreate_sound.
+
 (* C08 for workchains, exact form: with ANY placement and number of restores the run is, fuel for
    fuel, the run without restores (same final user state, trace of step and predicate calls, stepper,
    result; in particular no restore ever fails). *)
